@@ -62,10 +62,10 @@ func checkC05(c *Ctx) {
 				if call == nil {
 					continue
 				}
-				if calleeOf(&call.Call).Name != s.post {
+				if n := calleeOf(&call.Call).Name; n != s.post && !(s.post == "Equal" && n == "IsOne") {
 					// a helper of the package that applies post to what it is given (isOneGT(&f))
 					h := call.Call.StaticCallee()
-					if h == nil || h.Blocks == nil || fnPkgPath(h) != fnPkgPath(fn) || !reachesCallee(h, s.post) {
+					if h == nil || h.Blocks == nil || fnPkgPath(h) != fnPkgPath(fn) || !(reachesCallee(h, s.post) || (s.post == "Equal" && reachesCallee(h, "IsOne"))) {
 						continue
 					}
 				}
